@@ -487,12 +487,21 @@ fn c14_case(ctx: &mut Ctx, n: usize, kfail: usize, stdin_kind: &str, term: &str,
     let dir = ctx.scratch("c14");
     let mut execs = vec![];
     let mut want_errno = libc::ENOENT;
+    let mut process_limit = false;
     for j in 0..n {
         let mut e = if j == kfail {
             // why it cannot be started varies: nothing there (ENOENT), no execute permission or a directory (EACCES)
             use std::os::unix::fs::PermissionsExt;
-            match (n + kfail + stdin_kind.len() + term.len() + earlier.len()) % 4 {
+            match (n + kfail + stdin_kind.len() + term.len() + earlier.len() + via_clone as usize) % 5 {
                 0 => Exec::cmd(dir.join("no-such-program")),
+                4 => {
+                    // nothing wrong with the program: the process limit is reached, fork() fails with EAGAIN from this
+                    // command on, and goes on failing for as long as the commands already started are around
+                    want_errno = libc::EAGAIN;
+                    crate::plan::add(crate::plan::Rule { kind: k::FORK, scope: crate::plan::SCOPE_PARENT, nth: kfail as u32 + 1, fd: -1, act: crate::plan::ACT_FAIL, val: libc::EAGAIN as i64, prob: 2000 });
+                    process_limit = true;
+                    Exec::cmd(&ctx.vchild).args(&["exit", "0"])
+                }
                 3 => {
                     // the program is fine but a step between fork and exec is refused: no such user id
                     use subprocess::ExecExt;
@@ -611,6 +620,14 @@ fn c14_case(ctx: &mut Ctx, n: usize, kfail: usize, stdin_kind: &str, term: &str,
     }
     if ilog::child_escapes() > 0 {
         ctx.violation(&format!("C14/forked-child-ran-on-in-the-callers-code/{}", term), "the child forked for the command that cannot be started returned into the caller's code instead of reporting the error and exiting", w(J::Null));
+    }
+    if process_limit {
+        ctx.count("attempts_that_hit_the_process_limit", 1);
+        if crate::plan::BUDGET_HIT.load(std::sync::atomic::Ordering::SeqCst) > 0 {
+            ctx.violation(&format!("C14/keeps-retrying-fork/{}", term), "fork() failed with EAGAIN (process limit) and went on failing; instead of returning the error the call tried again and again (ended by the monitor after 24 attempts) while the commands it had already started - which hold the process slots - stayed alive", w(J::Null));
+            run::end_case();
+            return;
+        }
     }
     match &m.result {
         Some(Ok(r)) => {
